@@ -1,6 +1,7 @@
-import Mastverif.Lemmas.Diff
+import Mastverif.Lemmas.DiffNames
+import Mastverif.Lemmas.DiffDistinct
 /-!
-# C07 — node diff (property theorems, partial)
+# C07 — node diff (property theorems)
 
 On the literal `diffOne` + `alreadyNotified` model (whose link events agree, event by event,
 with what `DiffLinks` hands its callback: family `difflinks`):
@@ -10,10 +11,19 @@ with what `DiffLinks` hands its callback: family `difflinks`):
 * `C07_entry_stream_unaffected`: the link reports never disturb the traversal — the entry
   events are still exactly the sorted-merge diff (C06), so the traversal visits every region in
   which the versions differ.
-The full statement (added ⊇ new∖old, added ⊆ new, each name once; the replica corollary) is
-checked on the implementation by the `difflinks` family's oracle (reachable sets decoded from
-the store, a replica store that receives old + added and must load and iterate the new version);
-its model proof (`C07_complete`, `C07_within`, `C07_once`) is on the work list in DESIGN.md.
+* `C07_within_complete` (`Final`): for any two versions (old possibly absent, any heights, any
+  residency, empty trees included), with content names and no hash collision among the nodes in
+  play, when the traversal has ended
+  - every node the new version reaches is reported as added or has a name the old version reaches
+    (complete), and every reported name is the name of a node of the new version (within);
+  - symmetrically for removed;
+* `C07_replica`: hence a store holding the names of the old version plus the added names holds the
+  name of every node of the new version.
+* `C07_once`: no name is reported twice as added, nor twice as removed — for versions whose trees
+  have strictly ascending entries and no entry-less childless node below the top (what every
+  history produces: C09), however far the traversal gets (also when the callback stops it early).
+Hypotheses throughout: content names without a hash collision among the nodes in play
+(`NoCollision`), injective key / value encoders.
 -/
 namespace Mast.Diff
 open T
@@ -44,7 +54,107 @@ theorem C07_entry_stream_unaffected (hle : ∀ a b, nameOf a = nameOf b → toLi
     ents (run layer nameOf f s).1 = diffL (flat s.old) (flat s.new) :=
   run_correct layer nameOf hle f s ho hn hf
 
+theorem flat_rootItems (p : Bool) (t : T) : flat (rootItems p t) = toList t := by
+  unfold rootItems
+  split <;> simp [flat, toList]
+
+/-- **C07, complete and within** (both directions) -/
+theorem C07_within_complete (e : Enc) (hnc : NoCollision e)
+    (hk : Function.Injective e.keyB) (hv : Function.Injective e.valB)
+    (oldRoot : Option (Bool × T)) (newP : Bool) (newRoot : T)
+    (hso : ∀ p t, oldRoot = some (p, t) → Sorted (toList t)) (hsn : Sorted (toList newRoot)) (f : Nat)
+    (hf : mu (init oldRoot newP newRoot).old + mu (init oldRoot newP newRoot).new < f) :
+    Final (nodeName e) (oldNodes oldRoot)
+      (versionNodes newP newRoot)
+      (adds (run layer (nodeName e) f (init oldRoot newP newRoot)).1)
+      (rems (run layer (nodeName e) f (init oldRoot newP newRoot)).1) := by
+  have hle : ∀ a b, nodeName e a = nodeName e b → toList a = toList b :=
+    fun a b h => name_eq_toList e hnc hk hv a b h
+  have h := run_links layer (nodeName e) hle (sameBelow_of_noCollision e hnc) _ _ f
+    (init oldRoot newP newRoot) [] [] (init_links (nodeName e) oldRoot newP newRoot)
+    (by
+      cases oldRoot with
+      | none => simp [init, flat, Sorted]
+      | some pt => obtain ⟨p, t⟩ := pt; simpa [init, flat_rootItems] using hso p t rfl)
+    (by simpa [init, flat_rootItems] using hsn) hf
+  simpa using h
+
+/-- **the replica corollary**: old names + added names cover every node of the new version -/
+theorem C07_replica (e : Enc) (hnc : NoCollision e)
+    (hk : Function.Injective e.keyB) (hv : Function.Injective e.valB)
+    (oldRoot : Option (Bool × T)) (newP : Bool) (newRoot : T)
+    (hso : ∀ p t, oldRoot = some (p, t) → Sorted (toList t)) (hsn : Sorted (toList newRoot)) (f : Nat)
+    (hf : mu (init oldRoot newP newRoot).old + mu (init oldRoot newP newRoot).new < f)
+    (store : List Name)
+    (hold : ∀ x ∈ (oldNodes oldRoot), nodeName e x ∈ store)
+    (hadd : ∀ n ∈ adds (run layer (nodeName e) f (init oldRoot newP newRoot)).1, n ∈ store) :
+    ∀ x ∈ versionNodes newP newRoot, nodeName e x ∈ store := by
+  intro x hx
+  have h := C07_within_complete layer e hnc hk hv oldRoot newP newRoot hso hsn f hf
+  rcases h.complete_added x hx with h1 | h1
+  · exact hadd _ h1
+  · obtain ⟨y, hy, hyn⟩ := List.mem_map.mp h1
+    rw [← hyn]; exact hold y hy
+
+theorem oinv_root (e : Enc) (hnc : NoCollision e) (hk : Function.Injective e.keyB) (hv : Function.Injective e.valB)
+    (p : Bool) (t : T) (hs : Solid t) (hsrt : Sorted (toList t)) :
+    OInv layer (nodeName e) (rootItems p t) [] [] := by
+  by_cases hn : t.isNil = true
+  · have : t = nil := by cases t <;> simp_all [isNil]
+    subst this
+    exact ⟨by simp, by simp [rootItems, pend], by simp, by simp, by simp [rootItems, pend]⟩
+  · have hn' : t.isNil = false := by simpa using hn
+    by_cases hne : isEmptyRow t = true
+    · have : ∃ q, t = last q nil := by
+        cases t with
+        | nil => simp [isNil] at hn'
+        | last q c => cases c <;> simp_all [isEmptyRow]
+        | cons _ _ _ _ _ => simp [isEmptyRow] at hne
+      obtain ⟨q, rfl⟩ := this
+      exact ⟨by simp, by simp [rootItems, pend], by simp, by simp, by simp [rootItems, pend]⟩
+    · have hne' : isEmptyRow t = false := by simpa using hne
+      have hri : rootItems p t = [Item.link p t] := by
+        cases t with
+        | nil => simp [isNil] at hn'
+        | last q c => cases c <;> simp_all [isEmptyRow, rootItems]
+        | cons _ _ _ _ _ => rfl
+      have hnd := names_nodup e hnc hk hv (last false t) ⟨Or.inr hne', hs⟩ (by simpa [toList] using hsrt)
+      simp only [nodesBelow, hn', Bool.false_eq_true, if_false] at hnd
+      refine ⟨by simp, by simpa [hri, pend] using hnd, by simp, by simp, ?_⟩
+      intro x hx q
+      simp only [hri, pend, List.append_nil, List.mem_cons] at hx
+      rcases hx with rfl | hx
+      · exact chain_some layer _ q hs hn' hne'
+      · obtain ⟨a, b, c, _, _⟩ := nodesBelow_props t hs x hx
+        exact chain_some layer x q a b c
+
+/-- **C07, each name at most once** -/
+theorem C07_once (e : Enc) (hnc : NoCollision e)
+    (hk : Function.Injective e.keyB) (hv : Function.Injective e.valB)
+    (oldRoot : Option (Bool × T)) (newP : Bool) (newRoot : T)
+    (hso : ∀ p t, oldRoot = some (p, t) → Solid t ∧ Sorted (toList t))
+    (hsn : Solid newRoot ∧ Sorted (toList newRoot)) (f : Nat) :
+    (adds (run layer (nodeName e) f (init oldRoot newP newRoot)).1).Nodup ∧
+    (rems (run layer (nodeName e) f (init oldRoot newP newRoot)).1).Nodup := by
+  have hn := oinv_root layer e hnc hk hv newP newRoot hsn.1 hsn.2
+  have ho : OInv layer (nodeName e) (init oldRoot newP newRoot).old [] [] := by
+    cases oldRoot with
+    | none => exact ⟨by simp, by simp [init, pend], by simp, by simp, by simp [init, pend]⟩
+    | some pt =>
+      obtain ⟨p, t⟩ := pt
+      exact oinv_root layer e hnc hk hv p t (hso p t rfl).1 (hso p t rfl).2
+  simpa using run_once layer (nodeName e) f (init oldRoot newP newRoot) [] [] hn ho
+
+/-- non-vacuity: one key changed under a two-level tree — the changed leaf and the top are added -/
+example : adds (run (fun _ => 0) (fun t => (toList t).map fun e => (e.1 * 16 + e.2).toUInt8) 12
+    (init (some (true, cons true (cons true nil 2 0 (last true nil)) 4 0 (last true (cons true nil 7 0 (last true nil)))))
+      true (cons true (cons true nil 2 0 (last true nil)) 4 0 (last true (cons true nil 7 1 (last true nil)))))).1 = [[32, 64, 113], [113]] := by
+  decide
+
 end Mast.Diff
+#print axioms Mast.Diff.C07_within_complete
+#print axioms Mast.Diff.C07_replica
+#print axioms Mast.Diff.C07_once
 #print axioms Mast.Diff.C07_same_version_reports_nothing
 #print axioms Mast.Diff.C07_common_link_not_reported
 #print axioms Mast.Diff.C07_entry_stream_unaffected
